@@ -19,6 +19,44 @@ Proof.
   - split; discriminate.
 Qed.
 
+(* approval is membership of the WHOLE reported name in the program's own table *)
+Lemma mem_in x l : mem x l = true <-> In x l.
+Proof.
+  unfold mem. rewrite existsb_exists. split.
+  - intros [y [Hin E]]. apply beq_eq in E. subst. exact Hin.
+  - intro H. exists x. split; [exact H | apply beq_refl].
+Qed.
+
+Lemma has_counter_spec cfg n c : has_counter cfg n c = true <->
+  exists pc, In pc (cf_programs cfg) /\ pc_name pc = n /\ In c (pc_counters pc).
+Proof.
+  unfold has_counter. rewrite existsb_exists. split.
+  - intros [pc [Hin H]]. apply andb_true_iff in H as [H1 H2]. apply beq_eq in H1. apply mem_in in H2. eauto.
+  - intros [pc [Hin [<- Hc]]]. exists pc. split; [exact Hin|]. rewrite beq_refl. apply mem_in in Hc. rewrite Hc. reflexivity.
+Qed.
+
+Lemma has_stack_spec cfg n st : has_stack cfg n st = true <->
+  exists pc, In pc (cf_programs cfg) /\ pc_name pc = n /\ In st (pc_stacks pc).
+Proof.
+  unfold has_stack. rewrite existsb_exists. split.
+  - intros [pc [Hin H]]. apply andb_true_iff in H as [H1 H2]. apply beq_eq in H1. apply mem_in in H2. eauto.
+  - intros [pc [Hin [<- Hc]]]. exists pc. split; [exact Hin|]. rewrite beq_refl. apply mem_in in Hc. rewrite Hc. reflexivity.
+Qed.
+
+Theorem approved_names_listed semver cfg r p : valid_report semver cfg r = true -> In (Some p) (r_programs r) ->
+  (forall c v, In (c, v) (pg_counters p) ->
+     exists pc, In pc (cf_programs cfg) /\ pc_name pc = pg_name p /\ In c (pc_counters pc)) /\
+  (forall st v, In (st, v) (pg_stacks p) ->
+     exists pc, In pc (cf_programs cfg) /\ pc_name pc = pg_name p /\ In (stack_prefix st) (pc_stacks pc)).
+Proof.
+  unfold valid_report, approved. intros H Hin. apply andb_true_iff in H as [_ H].
+  rewrite forallb_forall in H. specialize (H _ Hin). simpl in H. unfold program_ok in H.
+  apply andb_true_iff in H as [H Hs]. apply andb_true_iff in H as [_ Hc].
+  rewrite forallb_forall in Hc, Hs. split.
+  - intros c v Hcv. apply has_counter_spec. apply (Hc _ Hcv).
+  - intros st v Hsv. apply has_stack_spec. apply (Hs _ Hsv).
+Qed.
+
 Section Endpoint.
   Variable semver : bytes -> bool.
   Variable marshal : report -> bytes.
